@@ -180,6 +180,7 @@ namespace
     std::vector<double> thick2, trunc2;   // values at the lower end of the segment (two-valued thickness / top truncation)
     std::vector<double> lengthB;          // non-empty: a second segment with the same dip, thickness and truncation, of this length
     std::vector<int> comp;   // composition painted by the section (uniform, fraction 1)
+    std::string feature_temperature;   // non-empty: the sections carry no temperature models, the feature carries this one (a model that depends on the slab length)
     bool additive = false;   // section models use operation add: temperature += temp[j] - 1000, composition 0 += 0.25 (j+1)
   };
   SecWorld base_secworld(bool fault, unsigned n)
@@ -204,9 +205,9 @@ namespace
     };
     std::string f = std::string("{\"model\":\"") + (s.fault ? "fault" : "subducting plate") + "\",\"name\":\"F\",\"coordinates\":" + pts(trench(s.n)) + ",\"dip point\":" + DIP_POINT + ",\"segments\":" + seg(0) + ",\"sections\":[";
     for (unsigned i = 0; i < s.n; ++i)
-      f += std::string(i ? "," : "") + "{\"coordinate\":" + std::to_string(i) + ",\"segments\":" + seg(i) + ",\"temperature models\":[{\"model\":\"uniform\",\"temperature\":" + num(s.additive ? s.temp[i] - 1000 : s.temp[i]) + (s.additive ? ",\"operation\":\"add\"" : "") + "}],"
+      f += std::string(i ? "," : "") + "{\"coordinate\":" + std::to_string(i) + ",\"segments\":" + seg(i) + "," + (s.feature_temperature.empty() ? "\"temperature models\":[{\"model\":\"uniform\",\"temperature\":" + num(s.additive ? s.temp[i] - 1000 : s.temp[i]) + (s.additive ? ",\"operation\":\"add\"" : "") + "}]," : std::string()) +
            "\"composition models\":[{\"model\":\"uniform\",\"compositions\":[" + std::to_string(s.comp[i]) + "]" + (s.additive ? ",\"fractions\":[" + num(0.25 * (i + 1)) + "],\"operation\":\"add\"" : "") + (s.fault ? "" : ",\"min distance slab top\":-1e6") + "}]}";
-    f += "]}";
+    f += "]" + (s.feature_temperature.empty() ? std::string() : ",\"temperature models\":[" + s.feature_temperature + "]") + "}";
     return world(coord(false), {f});
   }
   // classifier: section j paints composition j; thick and long enough to contain every probe any variant contains
@@ -391,6 +392,59 @@ namespace
     if (idx % 37 == 3) ctx.sample(JObj().boolean("fault", fault).integer("coordinates", n).integer("overridden_coordinate", k).str("override", kind < N_OVERRIDES ? OVERRIDES[kind] : kind == N_OVERRIDES ? "none" : "none, additive section models")
                                     .integer("probes_changed", static_cast<long long>(changed)).integer("probes_required_unchanged", static_cast<long long>(far)).done());
   }
+  // ---------- suite 3: a feature-level model that depends on the slab length sees the length of the section it is evaluated in ----------
+  // mass conserving temperature (tip taper placed relative to the total length) on a slab whose section k is longer than the others: next to a coordinate
+  // the answer must be that of a slab which has that coordinate's length everywhere (up to the small weight of the neighbouring section)
+  void run_length_model(uint64_t idx, Ctx &ctx)
+  {
+    static const int c_cmp = Ctx::counter_id("answers_compared");
+    const unsigned n = 3, k = static_cast<unsigned>(idx % 3);
+    const double LB = 6e5, LO = 1e6;
+    const std::string mc = "{\"model\":\"mass conserving\",\"density\":3300,\"spreading velocity\":0.05,\"subducting velocity\":0.05,\"ridge coordinates\":[[[-3e6,-2e6],[-3e6,2e6]]],\"coupling depth\":8e4,\"taper distance\":2e5,"
+                           "\"min distance slab top\":-1e5,\"max distance slab top\":1e5,\"adiabatic heating\":" + std::string(idx / 3 ? "false" : "true") + "}";
+    SecWorld var = base_secworld(false, n), ub = var, uo = var;
+    var.feature_temperature = ub.feature_temperature = uo.feature_temperature = mc;
+    var.length.assign(n, LB); ub.length.assign(n, LB); uo.length.assign(n, LO);
+    var.length[k] = LO;
+    const std::string tv = secworld_text(var), tb = secworld_text(ub), to = secworld_text(uo), tc = classifier_text(false, n, var.angle);
+    auto wv = make_world(tv, 1, "v"), wb = make_world(tb, 1, "b"), wo = make_world(to, 1, "o"), wc = make_world(tc, 1, "c");
+    const Request mreq = marker_request(n);
+    uint64_t judged = 0, sensitive = 0;
+    for (unsigned i = 0; i < n; ++i) for (double dy : {-2e3, 2e3}) for (double x = 0.5e5; x <= 6.5e5; x += 0.5e5) for (double d = 2.5e4; d <= 9.5e5; d += 5e4)
+            {
+              const double y = i * 2e5 + dy;
+              if (y < 1e3 || y > (n - 1) * 2e5 - 1e3) continue;
+              const P3 p = {{x, y, CART_TOP - d}};
+              const std::vector<double> m = wc->properties(p, d, mreq);
+              if (m[n] < 0) continue;
+              unsigned j = 0; for (unsigned q = 1; q < n; ++q) if (m[q] > m[j]) j = q;
+              if (m[j] < 0.98) continue;
+              const std::vector<double> av = wv->properties(p, d, {{{1,0,0}},{{4,0,0}}});
+              ctx.eval(); ctx.count(c_cmp);
+              if (av[1] < 0) continue;
+              // the slab that has the interpolated length of this location everywhere (one world per distinct length)
+              double Lstar = 0;
+              for (unsigned q = 0; q < n; ++q) Lstar += m[q] * var.length[q];
+              SecWorld us = ub; us.length.assign(n, Lstar);
+              const std::string tu = secworld_text(us);
+              auto wu = make_world(tu, 1, "u");
+              const std::vector<double> au = wu->properties(p, d, {{{1,0,0}},{{4,0,0}}});
+              if (au[1] < 0) continue;
+              const double spread = std::fabs(wo->properties(p, d, {{{1,0,0}}})[0] - wb->properties(p, d, {{{1,0,0}}})[0]);
+              ++judged;
+              if (spread > 1) ++sensitive;
+              if (!(std::fabs(av[0] - au[0]) <= 1e-6 * std::fabs(au[0])))
+                {
+                  ctx.violation("C10/length-model/temperature-is-not-that-of-a-slab-with-the-interpolated-length",
+                                JObj().str("what", "feature-level mass conserving temperature differs from the slab that has the length interpolated for this location everywhere")
+                                .integer("longer_coordinate", k).integer("nearest_coordinate", j).num("weight_on_it", m[j]).num("interpolated_length", Lstar).raw("point", jarr(p)).num("depth", d).num("temperature", av[0]).num("uniform_slab_with_that_length", au[0])
+                                .num("difference_between_600km_and_1000km_slabs_there", spread).str("world", tv).str("uniform_world", tu).done());
+                  return;
+                }
+            }
+    if (judged > 20 && sensitive > 0) ctx.nontrivial();
+    ctx.sample(JObj().str("suite", "length model").integer("longer_coordinate", k).integer("probes_judged", static_cast<long long>(judged)).done());
+  }
 }
 
 int main(int argc, char **argv)
@@ -418,7 +472,9 @@ int main(int argc, char **argv)
     uint64_t subsets = 0, ks = 0;
     for (unsigned n : ns) subsets += 1ull << n;
     for (unsigned n : ns2) ks += n;
-    std::vector<Suite> s(2);
+    std::vector<Suite> s(3);
+    s[2].name = "lengthmodel"; s[2].n = 6; s[2].run = run_length_model;
+    s[2].bound = "slab with 3 coordinates, section k in {0,1,2} 1000 km long, the others 600 km, feature-level mass conserving temperature (adiabatic heating on / off): probes within 2 km of every coordinate x 25 down-dip positions x 19 depths each compared with the uniform slab that has the interpolated length of that location";
     s[0].name = "layouts";
     s[0].n = 2 * 2 * NPLACEMENTS * subsets;
     s[0].run = [](uint64_t i, Ctx &c) { run_layout(ns, i, c); };
